@@ -229,6 +229,19 @@ def rule_r5(rep, program, se):
     return r
 
 
+def rule_r6(rep, program):
+    r = rep.rule("R6", "chain states are only created from user input (sampler entry points) or by copy(): no transition / integrator / adapter builds a fresh ChainState and thereby drops the cache", floor=2)
+    allowed = {"_check_and_process_init_state", "HamiltonianMonteCarlo._preprocess_init_state", "ChainState.copy"}
+    for fn in program.all_functions():
+        for n in ast.walk(fn.node):
+            if isinstance(n, ast.Call) and norm(n.func) in ("ChainState", "mici.states.ChainState", "states.ChainState"):
+                ok = fn.qualname in allowed
+                r.inst({"site": fn.qualname, "allowed": ok})
+                if not ok:
+                    r.violate(PROP, f"{fn.qualname}:constructs-ChainState", f"{fn.qualname} builds a new ChainState instead of copying the current one: every cached value (gradients at the current position) is lost and re-evaluated", node=n, file=fn.file)
+    return r
+
+
 def run(rep, program: Program, tier: str) -> None:
     rep.explanation = (
         "Structural necessary conditions of the memoisation contract: declared-vs-read "
@@ -244,3 +257,4 @@ def run(rep, program: Program, tier: str) -> None:
     rule_r3(rep, program)
     rule_r4(rep, program)
     rule_r5(rep, program, se)
+    rule_r6(rep, program)
